@@ -28,6 +28,8 @@ def run(ck, replay=None):
     # which system calls does spawn perform? (read from an un-injected traced run, per flavour; every one of
     # them is then refused in turn - the list is not fixed to today's mmap + clone)
     spawn_calls = tp.discover_spawn_calls(exes, ck.seed, "c05")
+    # and which does the finishing THREAD perform after its closure returned (e.g. the munmap of its own stack)?
+    exit_calls = tp.discover_exit_calls(exes, ck.seed, "c05")
     # thorough repeats the whole matrix at several seeds: the interleavings seen differ from run to run
     reps = 1 if quick else 6
     for i, (m, r, exe) in [(i + 5000 * rep, f) for rep in range(reps) for i, f in enumerate(exes)]:
@@ -54,6 +56,16 @@ def run(ck, replay=None):
         log = tp.tmp_log("c05-panicprint")
         jobs.append(tp.sysmon_job(exe, "panic_in_print", ck.seed + 250 + i, 3, log, timeout_s=8))
         meta.append(("sysmon", m, r, "panic_in_print", log))
+        ecalls = exit_calls.get((m, r))
+        if ecalls is None:
+            ck.note_inconclusive("%s/%s: the finishing thread's system calls could not be read from the un-injected run" % (m, "release" if r else "debug"))
+        else:
+            ck.extra.setdefault("thread_exit_system_calls", {})["%s/%s" % (m, "release" if r else "debug")] = \
+                ["%s#%d" % (syslog.NAME.get(nr, nr), occ) for nr, occ in ecalls]
+            for nr, occ in ecalls:
+                log = tp.tmp_log("c05-exitfault")
+                jobs.append(tp.sysmon_job(exe, "exit_fault_nr", ck.seed + 400 + i, nr, log, timeout_s=8, extra=(occ,)))
+                meta.append(("sysmon", m, r, "exitfault:%d:%d" % (nr, occ), log))
         calls = spawn_calls.get((m, r))
         if not calls:
             ck.note_inconclusive("%s/%s: spawn's system calls could not be read from the un-injected run" % (m, "release" if r else "debug"))
@@ -102,6 +114,30 @@ def run(ck, replay=None):
             os.unlink(log)
         except OSError:
             pass
+        if scen.startswith("exitfault"):
+            # the closure has run and produced its value; a call of the finishing thread was refused afterwards
+            ck.consume(text, context=label)
+            nr, occ = [int(x) for x in scen.split(":")[1:]]
+            cname = str(syslog.NAME.get(nr, nr)) + ("" if occ == 0 else "#%d" % occ)
+            injected = [e for e in evs if e.k == "S" and e.inj and e.nr == nr]
+            ck.count("thread_exit_faults_injected", len(injected))
+            joins = [e for e in evs if e.k == "M" and e.kind == syslog.MARK["REPORT"] and e.a[0] == 82]
+            if rr["rc"] is not None and rr["rc"] >= 128 and rr["rc"] not in (124, 125):
+                ck.violation("C05/probe-crash/thread-exit-%s-refused" % cname,
+                             dict(label=label, exit_status=rr["rc"], signal=rr["rc"] - 128, faults_injected=len(injected),
+                                  joins_returned_before_crash=len(joins), probe_output_tail=rr["out"][-400:]))
+            elif rr["rc"] == 1 and "Main thread panicked" in rr["err"] and "/verif/probes/" not in rr["err"].split("Main thread panicked", 1)[1][:200]:
+                ck.violation("C05/join/panic-after-thread-exit-%s-refused" % cname,
+                             dict(label=label, panic=rr["err"].split("Main thread panicked", 1)[1][:300]))
+            elif rr["rc"] == 124 or rr["timed_out"]:
+                ck.note_inconclusive("%s: watchdog fired (%d of 3 joins returned)" % (label, len(joins)))
+            elif rr["rc"] != 0:
+                ck.note_inconclusive("%s: exit status %s" % (label, rr["rc"]))
+            elif not injected:
+                ck.note_inconclusive("%s: no refusal was delivered" % label)
+            else:
+                ck.note_distinct("exitfault/%s/%s/joined-with-value" % (cname, m))
+            continue
         if scen.startswith("fault"):
             ck.consume(text, context=label)
             nr, occ = [int(x) for x in scen.split(":")[1:]]
@@ -180,6 +216,7 @@ def run(ck, replay=None):
     ck.assume("a hang is only reported with a logical certificate (single remaining thread parked in futex wait on the join word); watchdog alone is inconclusive")
     return ("thread_probe (no-libc, three link modes) runs the 6 disposition x 2 outcome cells over the result-layout family, "
             "random mixtures with up to 512 live threads, spawn with sysmon refusing each system call spawn performs (list read from an "
-            "un-injected traced run) at first, middle, last position, joins/drops whose futex wait is ended early or entered after the "
+            "un-injected traced run) at first, middle, last position, each call the finishing thread makes after its closure returned "
+            "(munmap of its own stack; list read the same way) refused with join still owed the value, joins/drops whose futex wait is ended early or entered after the "
             "thread has exited; per thread: run counter == 1, tagged result, plain buffer written before return must be visible after join; "
             "distinct = (cell, outcome, layout), flavours, fault positions and observed join-vs-exit orders")
